@@ -44,7 +44,7 @@ Lemma relay_stuck_before_8562805 :
 Proof. exists [fT; fD 3; fC; fG]. repeat split; vm_compute; reflexivity. Qed.
 
 Lemma relay_TDCG_now :
-  relay_now bel0 [fT; fD 3; fC; fG] = Done [encs [fT; fD 3; fC; fG]] (mkBel false true false) [].
+  relay_now bel0 [fT; fD 3; fC; fG] = Done [encs [fT; fD 3; fC; fG]] (mkBel false true) [].
 Proof. vm_compute. reflexivity. Qed.
 
 (** the guard [relay_ok] is not vacuous: a large CopyData without CopyOutResponse ends the
@@ -56,14 +56,14 @@ Proof. exists [fd 9000; fZ]. repeat split; vm_compute; reflexivity. Qed.
 
 (** F21c (known): extended-protocol COPY.  After CopyDone PostgreSQL sends CommandComplete only;
     ReadyForQuery follows the client's Sync, which pgcat does not read while it waits. *)
-Lemma extended_copy_blocks : relay_now (mkBel false true false) [fC] = LBlocked [].
+Lemma extended_copy_blocks : relay_now (mkBel false true) [fC] = LBlocked [].
 Proof. vm_compute. reflexivity. Qed.
 
 (** F21a/b (repaired by fd4aac1): one recv() after CopyDone returned only part of the reply *)
 Lemma single_recv_truncated_before_fd4aac1 :
   let fs := [fC; fT; fD 9000; fD 3; fC; fZ] in
   reply_stream fs /\ single_ok recv_break_D recv_break_d 0 fs = false /\
-  recv_now (mkBel false true false) [] fs = Ret (encs [fC; fT; fD 9000]) (mkBel true false false) [fD 3; fC; fZ] /\
+  recv_now (mkBel false true) [] fs = Ret (encs [fC; fT; fD 9000]) (mkBel true false) [fD 3; fC; fZ] /\
   (exists pre, crun_before_fd4aac1 true cst0 [cd 2; cc] = Some (cst0, pre ++ [RecvOnce])).
 Proof. repeat split; try (vm_compute; reflexivity). exists [SendSrv (encs [cd 2; cc])]. vm_compute. reflexivity. Qed.
 
